@@ -521,6 +521,15 @@ type opMarshaller struct{ run func(enc *slog.PrintCtx) }
 
 func (m opMarshaller) MarshalSlogObject(enc *slog.PrintCtx) error { m.run(enc); return nil }
 
+// the two other exported interfaces through which a user value is handed the encoder
+type arrMarshaller struct{ run func(enc *slog.PrintCtx) }
+
+func (m arrMarshaller) MarshalSlogArray(enc *slog.PrintCtx) error { m.run(enc); return nil }
+
+type serializer struct{ run func(enc *slog.PrintCtx) }
+
+func (m serializer) SerializeValueTo(enc *slog.PrintCtx) { m.run(enc) }
+
 // TestInsideMarshallers: records with 1-3 marshaller attributes are printed by a real logger (pooled
 // contexts, all formats, several records in a row). Inside every marshaller call the reference is a fresh
 // bytes.Buffer holding exactly what the encoder holds at that moment - whatever the library itself wrote
@@ -590,7 +599,8 @@ func TestInsideMarshallers(t *testing.T) {
 				tag := fmt.Sprintf("record %d marshaller %d", r, m)
 				// the string value the library prints between two marshallers: long ones make it reserve room at once
 				betweenLen := rapid.SampledFrom([]int{1, 1, 30, 250, 900}).Draw(t, "lengthOfTheStringBetween")
-				args = append(args, fmt.Sprintf("m%d", m), opMarshaller{run: func(enc *slog.PrintCtx) {
+				iface := rapid.SampledFrom([]string{"ObjectMarshaller", "ObjectMarshaller", "ArrayMarshaller", "ObjectSerializer"}).Draw(t, "interface")
+				args = append(args, fmt.Sprintf("m%d", m), asUserValue(iface, func(enc *slog.PrintCtx) {
 					if failure != "" {
 						return
 					}
@@ -641,7 +651,7 @@ func TestInsideMarshallers(t *testing.T) {
 					}
 					endsWithRead = len(ops) > 0 && readKinds[ops[len(ops)-1].Kind] && ops[len(ops)-1].Kind != "UnreadByte" && ops[len(ops)-1].Kind != "UnreadRune"
 					left, haveLeft = enc.String(), true
-				}}, fmt.Sprintf("m%dz", m), strings.Repeat("text ", betweenLen)) // the keys are sorted: m0 < m0z < m1 < m1z < plain < zzlast
+				}), fmt.Sprintf("m%dz", m), strings.Repeat("text ", betweenLen)) // the keys are sorted: m0 < m0z < m1 < m1z < plain < zzlast
 			}
 			args = append(args, "zzlast", opMarshaller{run: func(enc *slog.PrintCtx) { continues(enc, fmt.Sprintf("record %d after the last marshaller", r)) }})
 			func() {
@@ -675,4 +685,14 @@ func clipStr(s string) string {
 		return s[:80] + "..." + s[len(s)-80:]
 	}
 	return s
+}
+
+func asUserValue(iface string, run func(enc *slog.PrintCtx)) any {
+	switch iface {
+	case "ArrayMarshaller":
+		return arrMarshaller{run}
+	case "ObjectSerializer":
+		return serializer{run}
+	}
+	return opMarshaller{run}
 }
